@@ -432,11 +432,11 @@ fn check_reuse_outputs<F: Backend>(rng: &mut Rng, st: &mut Stats) -> Result<(), 
     let fns: Vec<F> = families.iter().map(|r| F::new(&cx, r).unwrap()).collect();
     let mut fe = F::new_float_slice_eval();
     let mut ge = F::new_grad_slice_eval();
-    let mut n = *rng.pick(&[1usize, 3, 8, 9, 16]);
+    let mut n = *rng.pick(&[1usize, 3, 8, 9, 16, 17, 33]);
     for step in 0..8 {
         let k = rng.below(fns.len());
         if rng.chance(0.3) {
-            n = *rng.pick(&[1usize, 3, 8, 9, 16]);
+            n = *rng.pick(&[1usize, 3, 8, 9, 16, 17, 33]);
         }
         let f = &fns[k];
         let cols: Vec<Vec<f32>> = (0..f.vars().len()).map(|_| (0..n).map(|_| rng.uniform(-3.0, 3.0) as f32).collect()).collect();
